@@ -36,6 +36,8 @@ def run(res, tier, build_ok):
         sas = sorted(sas)
         t10 = dict(zip(names, drv.batch(["t10op %s" % n for n in names])))
         t10sa = dict(zip(sas, drv.batch(["t10sa %s" % n for n in sas])))
+        t10home = dict(zip(sas, drv.batch(["t10sahome %s" % n for n in sas])))
+        GENERIC = ("_OPCODE_",)
         nonlocal no_oracle
         seen = {}
         for sn, e in sets.items():
@@ -61,6 +63,15 @@ def run(res, tier, build_ok):
                     v = getattr(oc.serviceaction, s)
                     res.case(("sa", sn, k, s))
                     res.count("service action entries")
+                    h = t10home.get(s, "none")
+                    # a service action hangs off the operation code it is a service action of (the generic *_OPCODE_xx
+                    # entries and smc's 1Bh entry carry the whole shared table and are not judged here)
+                    if h != "none" and not any(g in k for g in GENERIC) and not (sn == "smc" and k == "OPEN_CLOSE_IMPORT_EXPORT_ELEMENT") \
+                            and int(h[3:]) != oc.value:
+                        res.violation(tag + "set=%s opcode=%s lists foreign sa=%s" % (sn, k, s),
+                                      "%s.%s (operation code %s) lists the service action %s, which T10 assigns under operation code %s" % (
+                                          sn, k, hex(oc.value), s, hex(int(h[3:]))),
+                                      {"set": sn, "opcode": k, "value": oc.value, "service_action": s, "t10_home": int(h[3:])})
                     r = t10sa[s]
                     if r == "none":
                         no_oracle += 1
